@@ -26,7 +26,7 @@ PROPS["C07"] = {
     "kani": [],
     "technique": "Verus contracts on the extracted real h1::payload::Inner (representation invariant len == sum of queued chunks, whole-view postconditions with frames, waker tokens) plus a history lemma over those contracts",
     "level_text": "deductive proof for every operation of the body channel's shared state, for all inputs: FIFO order and exact bytes, ordering data -> error -> clean end, clean end only when the end flag is set and that flag is only set by feed_eof/new(true), Incomplete error when the sender goes away first, every sender-side mutation wakes and clears the registered reader, Pending registers the reader and wakes the feeder; history lemma (received is a prefix of fed) by induction over the contracts",
-    "level_note": "assumes: shim contracts for VecDeque (vstd), Option::take, Waker/Context (wake establishes the woken token); register/register_io (closure inside Option::is_none_or) are external_body with an assumed contract; the Rc/Weak/RefCell glue of Payload/PayloadSender is not under contract (not_decided_clauses); wake-up DELIVERY by the runtime is outside any contract",
+    "level_note": "assumes: shim contracts for VecDeque (vstd), Option::take, Waker/Context (wake establishes the woken token); the Rc/Weak/RefCell glue of Payload/PayloadSender is not under contract (not_decided_clauses); wake-up DELIVERY by the runtime is outside any contract",
     "not_decided": ["Payload/PayloadSender glue (Rc<RefCell<Inner>>, Weak::upgrade, Drop for PayloadSender calling close_sender): not under contract in this unit",
                     "that the executor actually polls a woken task (runtime behaviour)"],
     "assumptions": ["feed_data/unread_data precondition: len + data.len() <= usize::MAX (sum of live allocations cannot exceed the address space)"],
@@ -109,6 +109,16 @@ PROPS["C05"] = {
     "level_text": "deductive proof of each guard under contract, for all inputs: read_available attempts no read once read_buf holds MAX_BUFFER_SIZE bytes and otherwise only appends; the body channel's need_read flag is exactly (buffered < 32 KiB) after every feed/poll and can_read refuses to read while the consumer applies back-pressure; poll_stream/append_pending never grow the multipart buffer past its limit; HttpMessageBody never buffers beyond its limit",
     "level_note": "each guard is proved separately; their composition into one per-connection high-water mark over all schedules is not decided; MAX_PIPELINED_MESSAGES and the SendPayload write-buffer loop live inside poll_request/poll_response (not under contract); the 431 path (Request::decode TooLarge) is not under contract",
     "not_decided": ["Request::decode: Partial with >= MAX_BUFFER_SIZE bytes => TooLarge (httparse call site)", "poll_request: at most MAX_PIPELINED_MESSAGES queued", "poll_response SendPayload loop bounded by h1_write_buffer_size", "the size of one socket read (spare capacity chosen by BytesMut::reserve)", "global maximum over executions"],
+    "assumptions": [],
+}
+
+PROPS["C03"] = {
+    "units": ["h1_dispatcher_io", "h1_codec"],
+    "kani": [],
+    "technique": "Verus contracts on the extracted real decision functions of the reuse discipline: should_close_for_unread_payload, enter_linger, can_read, read_available's FINISHED handling, Codec's connection-type bookkeeping",
+    "level_text": "deductive proof, for all states, of the functions that implement close-means-close: the unread-payload close decision equals `body unfinished and not (dropped and drainable)`; enter_linger clears KEEP_ALIVE and sets LINGER|FINISHED touching nothing else; no read is attempted after READ_DISCONNECT; while an unread, dropped request body is being drained a successful read does not clear FINISHED (so the close decision survives the drain) and no other flag is touched; the codec records Close when keep-alive is disabled and a response's Close/Upgrade overrides the recorded type; body bytes are never handed to the head parser while a payload decoder is installed",
+    "level_note": "function-level proofs only: the connection-level statement (nothing further is written or dispatched after a close-announcing response) is a whole-history invariant of poll_response/poll_request, which are not under contract",
+    "not_decided": ["send_response / send_error_response setting Connection: close and entering linger/shutdown (textually parallel; not under contract)", "poll_response end-of-body branches and the keep-alive decision when the queue is empty", "poll_linger deadline handling (time)", "connection-level: no write / no dispatch after a close-announcing response (DESIGN.md S2)"],
     "assumptions": [],
 }
 
